@@ -8,7 +8,7 @@ if [ -n "$(git -C /repo status --short)" ]; then echo "/repo working tree is not
 ids=${@:-$(ls seeded)}
 for id in $ids; do
   prop=${id%%-*}
-  if ! git -C /repo apply seeded/$id/patch.diff 2>/dev/null; then echo "$id  PATCH-DOES-NOT-APPLY"; continue; fi
+  if ! git -C /repo apply /verif/seeded/$id/patch.diff 2>/dev/null; then echo "$id  PATCH-DOES-NOT-APPLY"; continue; fi
   out=$(timeout 2400 bin/vcheck $prop 2>&1 | grep -E "^(# |VIOLATION|OK |KNOWN)" | head -3 | tr '\n' ' ' | cut -c1-260)
   git -C /repo checkout -q -- .
   case "$out" in
